@@ -372,7 +372,22 @@ def write_ndjson(path, records):
 
 
 def workdir(pid):
-    d = os.path.join(BUILD, "work", pid)
+    """scratch directory of one run of one check: private to the process (two runs of the same check may overlap), removed at exit;
+    directories left behind by runs that were killed are swept when they are older than a day"""
+    import atexit
+    root = os.path.join(BUILD, "work")
+    os.makedirs(root, exist_ok=True)
+    now = time.time()
+    for name in os.listdir(root):
+        path = os.path.join(root, name)
+        try:
+            if now - os.path.getmtime(path) > 86400:
+                shutil.rmtree(path, ignore_errors=True)
+        except OSError:
+            pass
+    d = os.path.join(root, "%s_%d" % (pid, os.getpid()))
     shutil.rmtree(d, ignore_errors=True)
     os.makedirs(d, exist_ok=True)
+    if not os.environ.get("VERIF_KEEP_WORK"):
+        atexit.register(shutil.rmtree, d, True)
     return d
